@@ -10,8 +10,6 @@ import (
 	"time"
 
 	"github.com/spf13/afero"
-	grpcammo "github.com/yandex/pandora/components/providers/grpc"
-	"github.com/yandex/pandora/components/providers/grpc/grpcjson"
 	httpprovider "github.com/yandex/pandora/components/providers/http"
 	httpammo "github.com/yandex/pandora/components/providers/http/ammo"
 	"github.com/yandex/pandora/components/providers/http/config"
@@ -147,27 +145,7 @@ func runAmmoOn(fs afero.Fs, kv map[string]string, data []byte) string {
 	}
 	defer func() { _ = memFS.Remove(name) }()
 	if format == "grpcjson" {
-		passes, _ := strconv.Atoi(kv["passes"])
-		if kv["passes"] == "" {
-			passes = 1
-		}
-		limit, _ := strconv.Atoi(kv["limit"])
-		p := grpcjson.NewProvider(fs, grpcjson.Config{File: name, Passes: passes, Limit: limit, ContinueOnError: kv["coe"] == "1"})
-		res := driveProvider(p, func(a core.Ammo, ok bool) (string, bool) {
-			if !ok {
-				return "", false
-			}
-			am, isAmmo := a.(*grpcammo.Ammo)
-			if !isAmmo || am == nil {
-				return "?", true
-			}
-			e := hex.EncodeToString([]byte(am.Tag))
-			if !am.IsValid() {
-				e += ":I"
-			}
-			return e, true
-		})
-		return res.String()
+		return runGrpc(fs, kv, name) // round3.go
 	}
 	// passes=0 (unlimited) is run with a limit: the file is read again and again until `limit` entries were delivered
 	hpasses, hlimit := uint(1), uint(0)
@@ -200,9 +178,13 @@ func runAmmoOn(fs afero.Fs, kv map[string]string, data []byte) string {
 	if err != nil {
 		return "n=0 e= end=ctor-" + errClass(err)
 	}
-	res := driveProvider(p, func(a core.Ammo, ok bool) (string, bool) {
+	res := driveProvider(p, func(a core.Ammo, ok bool) (e string, more bool) {
 		if a == nil {
 			return "", false
+		}
+		// rel=1: the consumer hands the ammo back (the engine's instances do)
+		if kv["rel"] == "1" {
+			defer p.Release(a)
 		}
 		if !ok {
 			// BuildRequest failed: the decoded entry is handed back with ok=false
